@@ -63,6 +63,11 @@ pub struct Sq {
 
 impl Sq {
     pub fn from_eds(eds: ExtendedDataSquare) -> Sq {
+        Sq::from_eds_opt(eds, true)
+    }
+
+    /// `strict = false`: equal shares are recorded (`distinct`), not a tool error (C08 judges the extension itself).
+    pub fn from_eds_opt(eds: ExtendedDataSquare, strict: bool) -> Sq {
         let w = eds.square_width() as usize;
         let dah = DataAvailabilityHeader::from_eds(&eds);
         let header = ExtendedHeaderGenerator::new().next_with_dah(dah.clone());
@@ -72,7 +77,7 @@ impl Sq {
         for s in eds.data_square() {
             if !seen.insert(s.to_vec()) {
                 distinct = false;
-                if w > 2 {
+                if w > 2 && strict {
                     tool_error("generated square has two equal shares");
                 }
             }
@@ -83,6 +88,10 @@ impl Sq {
     /// Honest extension of a generic ODS of width w/2, then the `junk` cells overwritten (namespace,
     /// info byte and sequence length of data cells kept) before the roots are computed.
     pub fn generic(w: usize, seed: u64, junk: &[(usize, usize)]) -> Sq {
+        Sq::generic_opt(w, seed, junk, true)
+    }
+
+    pub fn generic_opt(w: usize, seed: u64, junk: &[(usize, usize)], strict: bool) -> Sq {
         let k = w / 2;
         let mut rng = StdRng::seed_from_u64(seed ^ ((w as u64) << 32));
         let pal = palette();
@@ -90,7 +99,7 @@ impl Sq {
         let ods = ods_with(k, &mut rng, |t| pal[t * pal.len() / n]);
         let eds = ExtendedDataSquare::from_ods(ods, APP).unwrap_or_else(|e| tool_error(&format!("from_ods: {e}")));
         if junk.is_empty() {
-            return Sq::from_eds(eds);
+            return Sq::from_eds_opt(eds, strict);
         }
         let mut shares: Vec<Vec<u8>> = eds.data_square().iter().map(|s| s.to_vec()).collect();
         for &(r, c) in junk {
@@ -186,9 +195,13 @@ pub struct SqCache {
 
 impl SqCache {
     pub fn get(&mut self, w: usize, seed: u64, junk: &[(usize, usize)]) -> &mut Sq {
+        self.get_opt(w, seed, junk, true)
+    }
+
+    pub fn get_opt(&mut self, w: usize, seed: u64, junk: &[(usize, usize)], strict: bool) -> &mut Sq {
         let key = (w, junk.to_vec());
         if !self.map.contains_key(&key) {
-            self.map.insert(key.clone(), Sq::generic(w, seed, junk));
+            self.map.insert(key.clone(), Sq::generic_opt(w, seed, junk, strict));
             self.built += 1;
         }
         self.map.get_mut(&key).unwrap()
